@@ -47,6 +47,19 @@ Theorem C09_secure_default_map_key : forall c s lk l, walk c CMapVal (VLeaf lk l
 Proof. exact secure_default_map_key. Qed.
 Print Assumptions C09_secure_default_map_key.
 
+(* the defaults (sensitive: encrypt, secret and unclassified: redact, public: nothing) and the precedence of an override
+   over whatever operation the tag names *)
+Theorem C09_defaults : 
+  action (resolve_string no_overrides "sensitive") = AEncrypt /\ action (resolve_string no_overrides "secret") = ARedact /\
+  action (resolve_string no_overrides "public") = ASkip /\ action (resolve_tag no_overrides None) = ARedact.
+Proof. exact defaults_no_overrides. Qed.
+Print Assumptions C09_defaults.
+
+Theorem C09_override_wins : forall ov s c o,
+  class_of_text (hd EmptyString (split_comma s)) = c -> override_of ov c = Some o -> resolve_string ov s = (c, o).
+Proof. exact override_wins. Qed.
+Print Assumptions C09_override_wins.
+
 (* a value is left as it was only when it is classified public or the operation in force for it is "none" *)
 Theorem C09_skip_only_public_or_none : forall ti, action ti = ASkip <-> fst ti = CPublic \/ snd ti = ONone.
 Proof. exact action_skip. Qed.
